@@ -20,7 +20,7 @@ BINARIES = [
     ("query", "lib/util/lifted/influx/query", "TestVerifC12Options", "t-query.bin"),
     ("executor", "engine/executor", "TestVerifC12Executor", "t-executor.bin"),
 ]
-DEADLINE = {"quick": 240, "thorough": 1800}
+DEADLINE = {"quick": 240, "thorough": 2400}
 WORKERS = 16
 LEVEL = "exploration"
 RULE = ("influxql: every expression text of the grammar (full literal alphabet x 19 binary operators x unary minus/plus/parentheses, "
